@@ -54,8 +54,14 @@ def main():
         dst = os.path.join(HERE, "refactors", name)
         os.makedirs(dst, exist_ok=True)
         for f in ("patch.diff", "difftest.py"):
-            if os.path.exists(os.path.join(args.src, f)):
+            if os.path.exists(os.path.join(args.src, f)) and os.path.abspath(args.src) != os.path.abspath(dst):
                 shutil.copy(os.path.join(args.src, f), dst)
+        prev = meta.get("results", {})
+        if prev.get("checks") and set(props) != set(ALL):
+            # a partial re-run (after a check was extended): merge into the earlier full result
+            merged = dict(prev["checks"], **res["checks"])
+            res = dict(prev, **res, checks=merged, silent=all(c["exit"] == 0 for c in merged.values()))
+            res.setdefault("reruns", []).append({"props": props, "tier": args.tier})
         meta["results"] = res
         json.dump(meta, open(os.path.join(dst, "meta.json"), "w"), indent=1)
         print(json.dumps({k: v for k, v in res.items() if k != "checks"}))
